@@ -23,3 +23,22 @@ __CPROVER_ensures(__CPROVER_return_value && __CPROVER_old(out->nput) == 0 && gho
 __CPROVER_ensures(__CPROVER_return_value && __CPROVER_old(out->nput) == 0 && ghost_ok == 3 ==>
    out->okv == MULMOD(MULMOD(POWM(TOK(in, 3), dr[3], P), POWM(TOK(in, 1), dr[2], P), P), V(M1), P))
 //@ end
+
+//@ function NaorPinkasEOTP__Choose_interactive_OneOutOfTwo
+//@ contract
+__CPROVER_requires(EOTP_INV(self) && MPZ_OK(M) && IOS_IN_OK(in) && __CPROVER_is_fresh(out, sizeof(*out)) && __tmcg_thrown == 0)
+__CPROVER_requires(sigma < 2 && dr_n == 0 && ghost_ok < 4 && WORD_OK(MUL(Q, Q)))
+__CPROVER_assigns(V(M), IOS_IN_ASSIGNS(in), IOS_OUT_ASSIGNS(out), __tmcg_thrown, dr_n, __CPROVER_object_whole(dr), __CPROVER_object_whole(dr_mod))
+__CPROVER_ensures(__tmcg_thrown == 0 || __tmcg_thrown == TMCG_EXC_runtime_error || __tmcg_thrown == TMCG_EXC_invalid_argument)
+/* C18, first move: three fresh residues a, b, c below q; the query is x = g^a, y = g^b and the z-value of the chooser's
+ * OWN index hides a*b mod q while the other one is g^c for the independent c (ghost_ok: arbitrary output position) */
+__CPROVER_ensures(__tmcg_thrown == 0 ==> (dr_n == 3 && dr_mod[0] == Q && dr_mod[1] == Q && dr_mod[2] == Q && out->nput == __CPROVER_old(out->nput) + 4))
+__CPROVER_ensures((__tmcg_thrown == 0 && __CPROVER_old(out->nput) == 0 && ghost_ok == 0) ==> out->okv == POWM(G, dr[0], P))
+__CPROVER_ensures((__tmcg_thrown == 0 && __CPROVER_old(out->nput) == 0 && ghost_ok == 1) ==> out->okv == POWM(G, dr[1], P))
+__CPROVER_ensures((__tmcg_thrown == 0 && __CPROVER_old(out->nput) == 0 && ghost_ok == 2) ==> out->okv == POWM(G, (sigma == 0 ? MOD(MUL(dr[0], dr[1]), Q) : dr[2]), P))
+__CPROVER_ensures((__tmcg_thrown == 0 && __CPROVER_old(out->nput) == 0 && ghost_ok == 3) ==> out->okv == POWM(G, (sigma == 1 ? MOD(MUL(dr[0], dr[1]), Q) : dr[2]), P))
+/* second move: the answer is used only if both w-values are subgroup members, and the output is the ciphertext of
+ * the chooser's own index divided by (w_sigma)^b:  M = c_sigma * ((w_sigma)^b)^-1 mod p */
+__CPROVER_ensures(__CPROVER_return_value ==> (__tmcg_thrown == 0 && in->pos == __CPROVER_old(in->pos) + 4 && CE(TOK(in, 0)) && CE(TOK(in, 2))))
+__CPROVER_ensures(__CPROVER_return_value ==> V(M) == MULMOD(TOK(in, (sigma == 0 ? 1 : 3)), UF(invert)(POWM(TOK(in, (sigma == 0 ? 0 : 2)), dr[1], P), P), P))
+//@ end
